@@ -44,6 +44,73 @@ fn canon_sets(ng: &NormGraph, sets: &[HashSet<String>]) -> Result<BTreeSet<BTree
 
 /// large graphs: component functions against linear-time oracles (union-find, Kosaraju), inside the
 /// default (16-thread) rayon context and inside a pool of 2
+/// Shape tag of the fixed wide-level cases: a hub with `big_n` leaves (one breadth-first level of
+/// more than 2^16 nodes, not a multiple of any power of two up to 2^14) and a pendant node behind
+/// every 89th leaf and behind the last five, reachable through that leaf only.
+pub const WIDE: u8 = 253;
+
+fn check_wide(case: &CompCase) -> Outcome {
+    let mut out = Outcome::new();
+    let leaves = case.g.big_n as usize;
+    let directed = case.g.kind & 1 == 1;
+    let mut edges = vec![];
+    let mut n = 1 + leaves;
+    for i in 1..=leaves {
+        edges.push((0usize, i, f64::NAN));
+    }
+    for i in 1..=leaves {
+        if i % 89 == 0 || i + 5 > leaves {
+            edges.push((i, n, f64::NAN));
+            n += 1;
+        }
+    }
+    let ng = NormGraph { directed, multi: false, loops: false, n, names: (0..n).map(|i| format!("w{:06}", (i * 7919 + 13) % 1_000_003)).collect(), order: (0..n).collect(), edges, weighted: false };
+    let graph = ng.build();
+    let all: HashSet<&str> = ng.names.iter().map(|s| s.as_str()).collect();
+    out.api_calls += 1;
+    match guard(|| graph.breadth_first_search(&ng.names[0])) {
+        Err(p) => out.fail(format!("breadth_first_search/panic/{}", panic_class(&p)), p),
+        Ok(l) => {
+            let got: HashSet<&str> = l.iter().map(|s| s.as_str()).collect();
+            out.check(l.first() == Some(&ng.names[0]), "breadth_first_search/start/first/wide_level", || format!("{:?}", l.first()));
+            out.check(got.len() == l.len() && got.is_subset(&all), "breadth_first_search/once/duplicates_or_foreign/wide_level", || format!("{} entries, {} distinct", l.len(), got.len()));
+            out.check(got.len() == n, "breadth_first_search/eq_closure/reachable_missing/wide_level", || format!("{} of {} nodes listed from the hub (one level has {} nodes)", got.len(), n, leaves));
+        }
+    }
+    let one_set = |name: &str, r: Result<Result<Vec<HashSet<String>>, graphrs::Error>, String>, out: &mut Outcome| match r {
+        Err(p) => out.fail(format!("{}/panic/{}", name, panic_class(&p)), p),
+        Ok(Err(e)) => out.fail(format!("{}/error/wide_level", name), kind_of(&e)),
+        Ok(Ok(sets)) => {
+            let total: usize = sets.iter().map(|s| s.len()).sum();
+            out.check(sets.len() == 1 && total == n && sets[0].iter().all(|x| all.contains(x.as_str())), &format!("{}/classes/split/wide_level", name), || format!("{} sets covering {} of {} nodes of one connected graph", sets.len(), total, n));
+        }
+    };
+    out.api_calls += 2;
+    if directed {
+        one_set("weakly_connected_components", guard(|| components::weakly_connected_components(&graph)), &mut out);
+    } else {
+        one_set("connected_components", guard(|| components::connected_components(&graph)), &mut out);
+        match guard(|| components::number_of_connected_components(&graph)) {
+            Ok(Ok(c)) => {
+                out.check(c == 1, "number_of_connected_components/eq_oracle/count/wide_level", || format!("{} vs 1", c));
+            }
+            Ok(Err(e)) => out.fail("number_of_connected_components/error/wide_level", kind_of(&e)),
+            Err(p) => out.fail(format!("number_of_connected_components/panic/{}", panic_class(&p)), p),
+        }
+        out.api_calls += 1;
+        match guard(|| components::node_connected_component(&graph, &ng.names[n - 1])) {
+            Ok(Ok(s)) => {
+                out.check(s.len() == n, "node_connected_component/eq_closure/wide_level", || format!("{} of {} nodes", s.len(), n));
+            }
+            Ok(Err(e)) => out.fail("node_connected_component/error/wide_level", kind_of(&e)),
+            Err(p) => out.fail(format!("node_connected_component/panic/{}", panic_class(&p)), p),
+        }
+    }
+    out.class("one_breadth_first_level_of_more_than_2^16_nodes");
+    out.nontrivial = true;
+    out
+}
+
 fn check_big(case: &CompCase) -> Outcome {
     let mut out = Outcome::new();
     let mut ng = case.g.norm();
@@ -166,6 +233,10 @@ impl Prop for C10 {
                 }
             }
         }
+        // one breadth-first level of more than 2^16 nodes (see WIDE)
+        for kind in [0u8, 1] {
+            v.push(CompCase { g: GraphCase { kind, n: 0, perm: 0, shape: WIDE, edges: vec![], wmode: 0, big_n: 70_001 + 11_918 * kind as u32, big_seed: 0 }, k: 1 });
+        }
         v
     }
     fn strategy(&self, _tier: Tier) -> BoxedStrategy<CompCase> {
@@ -194,6 +265,9 @@ impl Prop for C10 {
         tier.pick(300_000, 3_000_000)
     }
     fn check(&self, case: &CompCase) -> Outcome {
+        if case.g.shape == WIDE {
+            return check_wide(case);
+        }
         if case.g.big_n > 0 {
             return check_big(case);
         }
